@@ -42,6 +42,12 @@ var verifCastProgs = []verifCastProg{
 		func(a int64) string { return fmt.Sprint(a+1) + "\ncaught\n" }},
 	{"object-as-any-object-leaves-the-object-typed", "fn main() {\n  let o = new { n: A, m: 2 };\n  let a = o as { ? };\n  a.set(\"n\", \"text\");\n  a.set(\"extra\", 1);\n  println(o.n + 1, o.m);\n  println(a.keys().len());\n}\n",
 		func(a int64) string { return fmt.Sprint(a+1) + " 2\n3\n" }},
+	{"optional-any-into-parameter", "fn want(v: ?int) -> int { v.unwrap() + 1 }\nfn main() {\n  let o = new { s: \"text\", n: A } as { ? };\n  println(want(o->n as ?int));\n  try { println(want(o->s)); } catch e { println(\"caught\"); }\n}\n",
+		func(a int64) string { return fmt.Sprint(a+1) + "\ncaught\n" }},
+	{"optional-any-into-list-element", "fn main() {\n  let o = new { s: \"text\", n: A } as { ? };\n  try {\n    let l = [?1, o->s];\n    println(l[1].unwrap() + 1);\n  } catch e { println(\"caught\"); }\n  println(A);\n}\n",
+		func(a int64) string { return "caught\n" + fmt.Sprint(a) + "\n" }},
+	{"optional-any-into-branch-value", "fn main() {\n  let o = new { s: \"text\", n: A } as { ? };\n  try {\n    let y: ?int = if A == A { o->s } else { ?1 };\n    println(y.unwrap() + 1);\n  } catch e { println(\"caught\"); }\n  println(A);\n}\n",
+		func(a int64) string { return "caught\n" + fmt.Sprint(a) + "\n" }},
 	{"parse-json", "fn main() {\n  let r = \"{\\\"val\\\": 42}\".parse_json() as { val: int };\n  println(r.val + A);\n  try {\n    let s = \"{\\\"val\\\": 42}\".parse_json() as { val: str };\n    println(\"not reached\", s);\n  } catch e {\n    println(\"caught\");\n  }\n  println(\"end\");\n}\n",
 		func(a int64) string { return fmt.Sprint(42+a) + "\ncaught\nend\n" }},
 }
